@@ -8,6 +8,7 @@ and a list of *sites* (index / slice / split / arithmetic / allocation / unwrap)
 proved | unproved.  Interprocedural part: constant length requirements of helpers on their slice
 parameters become sites at the call sites (bottom-up over the call graph).
 """
+import os
 import sys
 from collections import defaultdict
 
@@ -130,6 +131,8 @@ def _vkey(v):
         return None
     if v[0] == "int":
         return ("int", v[1].key() if v[1] else None, v[2], v[3], v[4], tuple(sorted(v[5])))
+    if v[0] == "opt" and v[1] == "guard":
+        return ("opt", "guard", tuple((c[0], _vkey(c[1]), _vkey(c[2])) for c in v[2]))
     if v[0] in ("tuple", "range", "opt", "iter", "bool"):
         return (v[0],) + tuple(_vkey(x) if isinstance(x, tuple) and x and isinstance(x[0], str) and x[0] in ("int", "slice", "tuple", "range", "opt", "iter", "bool", "ref") else (tuple(_vkey(y) for y in x) if isinstance(x, list) else x) for x in v[1:])
     return v
@@ -150,6 +153,8 @@ def join_val(a, b, widen=False):
         return ("tuple", [join_val(x, y) for x, y in zip(a[1], b[1])])
     if a[0] == "range" and a[1] == b[1]:
         return ("range", a[1], join_val(a[2], b[2]), join_val(a[3], b[3]))
+    if a[0] == "opt" and a[1] == b[1] == "guard":
+        return a if _vkey(a) == _vkey(b) else None
     if a[0] == "opt" and a[1] == b[1]:
         return ("opt", a[1], join_val(a[2], b[2]))
     return None
@@ -606,6 +611,11 @@ class FnRun(FnAnalysis):
             if truth:
                 self.assume(st, cmp[1], True)
             return
+        if cmp[0] == "and":
+            if truth:
+                for c_ in cmp[1]:
+                    self.assume(st, c_, True)
+            return
         op, a, b = cmp
         if a is None or b is None or a[0] != "int" or b[0] != "int":
             return
@@ -722,6 +732,12 @@ class FnRun(FnAnalysis):
         req = None
         if not ok and sid.startswith("P") and need is not None and need[0] == "int" and need[1] is not None and need[1].is_const():
             req = (int(sid[1:]), need[1].c + (1 if strict else 0))
+        if not ok and req is None and not os.environ.get("C06_NO_SUBREQ") and need is not None and need[0] == "int" and need[1] is not None and need[1].is_const():
+            # a sub-slice `param[c..]` of a parameter: the need moves to the parameter, c bytes further
+            ex = st.sl.get(sid, (0, frozenset(), None))[2]
+            exx = self.expand(st, ex) if ex is not None else None
+            if exx is not None and len(exx.t) == 1 and exx.t[0][1] == 1 and exx.t[0][0].startswith("LP") and exx.t[0][0][2:].isdigit() and exx.c <= 0:
+                req = (int(exx.t[0][0][2:]), need[1].c + (1 if strict else 0) - exx.c)
         self.add_site(key, "R-INDEX", op, span, ok,
                       "needs %s %s len(%s); known: %s" % (self.val_desc(st, need), "<" if strict else "<=", self.origin(st, sid), self.facts_txt(st, sid)), sig, True, req)
         return ok
@@ -853,6 +869,10 @@ class FnRun(FnAnalysis):
         if k == "Repeat":
             return ("array", rv.get("n"))
         if k == "Discriminant":
+            # the result of a guard helper (see ok_facts): discriminant 0 (Ok / Continue) implies its facts
+            pv = st.val.get(self.resolve(st, rv["place"]))
+            if pv and pv[0] == "opt" and pv[1] == "guard":
+                return ("bool", ("not", ("implies", ("and", pv[2]))))
             return None
         return None
 
@@ -895,9 +915,14 @@ class FnRun(FnAnalysis):
             self.assign(st, dest, None)
             return
         # ---- lengths
+        if last == "len" and len(args) == 1 and not dest.get("p"):
+            self.len_locals.add(dest["l"])
         if last in ("len",) and len(args) == 1 and (_c(name, "slice") or _c(name, "vec::Vec") or _c(name, "impl str") or _c(name, "String") or _c(name, "array")):
             sid = self.slice_arg(st, args[0])
             res = self.len_val(st, sid) if sid else ("int", None, 0, INF, False, frozenset())
+        elif last == "len" and len(args) == 1 and (_c(name, "BTreeMap") or _c(name, "HashMap") or _c(name, "VecDeque") or _c(name, "BTreeSet") or _c(name, "HashSet")):
+            # the number of entries of a collection in memory: bounded by what was already allocated for it
+            res = ("int", None, 0, INF, False, frozenset())
         elif last == "is_empty" and len(args) == 1 and (_c(name, "slice") or _c(name, "vec::Vec") or _c(name, "impl str") or _c(name, "String")):
             sid = self.slice_arg(st, args[0])
             res = ("bool", ("Eq", self.len_val(st, sid), V_const(0))) if sid else None
@@ -1019,6 +1044,8 @@ class FnRun(FnAnalysis):
             res = out
         elif last == "branch" and _c(decl, "ops::try_trait::Try"):
             res = args[0] if args and args[0] and args[0][0] == "opt" else None
+        elif last == "map_err" and args and args[0] and args[0][0] == "opt" and args[0][1] == "guard":
+            res = args[0]
         elif last in ("map_err", "ok", "or", "or_else", "ok_or", "ok_or_else", "map") and args and args[0] and args[0][0] == "opt" and last in ("map_err", "ok", "ok_or", "ok_or_else"):
             res = ("opt", "some", args[0][2] if args[0][1] == "some" else None)
         elif last == "write_fmt" and _c(name, "String"):
@@ -1070,6 +1097,35 @@ class FnRun(FnAnalysis):
 
         if not handled:
             callee_fn = self.prog.runs.get(name)
+            if self.collect and name in self.prog.eligible:
+                obs = self.prog.arg_obs.setdefault(name, {})
+                for i_, a_ in enumerate(args):
+                    if a_ and a_[0] == "int":
+                        a_ = self.refresh(st, a_)
+                        lo_, hi_ = a_[2], a_[3]
+                    else:
+                        lo_, hi_ = -INF, INF
+                    cur_ = obs.get(i_ + 1)
+                    obs[i_ + 1] = (lo_, hi_) if cur_ is None else (min(cur_[0], lo_), max(cur_[1], hi_))
+                # relations between the arguments that hold at this call site (`start <= res.len()`)
+                rel_ = set()
+                ints_ = [(i_, self.refresh(st, a_)) for i_, a_ in enumerate(args) if a_ and a_[0] == "int"]
+                for i_, vi_ in ints_:
+                    for j_, vj_ in ints_:
+                        if i_ != j_ and self.prove_le(st, vi_, vj_):
+                            rel_.add(("le", i_ + 1, j_ + 1))
+                for s_i, a_ in enumerate(args):
+                    if not a_ or a_[0] not in ("slice", "ref"):
+                        continue
+                    sid_ = self.slice_arg(st, a_)
+                    if not sid_:
+                        continue
+                    lv_ = self.len_val(st, sid_)
+                    for j_, vj_ in ints_:
+                        if self.prove_le(st, vj_, lv_):
+                            rel_.add(("len_ge", s_i + 1, j_ + 1))
+                cur_rel = self.prog.arg_rel_obs.get(name)
+                self.prog.arg_rel_obs[name] = rel_ if cur_rel is None else (cur_rel & rel_)
             if callee_fn is not None and callee_fn is not self:
                 # constant length requirements of the helper
                 for (pi, k) in sorted(self.prog.requires.get(name, {}).items()):
@@ -1081,6 +1137,9 @@ class FnRun(FnAnalysis):
                             self.check_need(st, (bi, "T", pi), "call %s needs" % name.rsplit("::", 1)[-1], span, sid, V_const(k), False)
             # xlsb record payload: the buffer holds at least the returned number of bytes
             res = self.default_result(st, tag, dcls, dty, name, args)
+            ens = self.prog.ensures.get(name) if callee_fn is not None and callee_fn is not self else None
+            if ens and res is None:
+                res = self.guard_value(st, ens, args)
             if last in ("fill_buffer", "next_skip_blocks") and _c(name, "xlsb::RecordIter"):
                 bufv = args[-1]
                 at = self.fresh(tag + "n", "u64", True, "src28")
@@ -1226,6 +1285,8 @@ class FnRun(FnAnalysis):
             dcls = self.place_class(s["place"])
             v = self.rvalue(st, s["rv"], tag, dcls)
             self.assign(st, s["place"], v)
+            if self.collect and s["place"]["l"] == 0:
+                self.note_return_value(st, s["rv"], bool(s["place"].get("p")))
         t = b["term"]
         if not t:
             return []
@@ -1247,6 +1308,22 @@ class FnRun(FnAnalysis):
             return []
         if k == "SwitchInt":
             d = self.read_operand(st, t["discr"], "%d_S" % bi)
+            if self.collect:
+                dp = t["discr"].get("copy") or t["discr"].get("move")
+                for s_ in b["stmts"]:
+                    if dp is not None and s_.get("k") == "Assign" and s_["place"]["l"] == dp["l"] and not s_["place"].get("p") and s_["rv"].get("k") == "BinaryOp" and s_["rv"]["op"] in ("Lt", "Le", "Gt", "Ge"):
+                        pa = s_["rv"]["a"].get("copy") or s_["rv"]["a"].get("move")
+                        pb = s_["rv"]["b"].get("copy") or s_["rv"]["b"].get("move")
+                        la = pa is not None and not pa.get("p") and pa["l"] in self.len_locals
+                        lb = pb is not None and not pb.get("p") and pb["l"] in self.len_locals
+                        if la != lb:
+                            other = self.read_operand(st, s_["rv"]["b"] if la else s_["rv"]["a"], "%d_SL" % bi)
+                            op = s_["rv"]["op"]
+                            # normalise to  len OP other
+                            if lb:
+                                op = {"Lt": "Gt", "Le": "Ge", "Gt": "Lt", "Ge": "Le"}[op]
+                            zero_tgt = [tg for v_, tg in zip(t["vals"], t["tgts"]) if v_ == 0]
+                            self.len_loops[bi] = (op, self.refresh(st, other) if other else None, t.get("span") or s_.get("span") or {}, zero_tgt[0] if zero_tgt else None, t["otherwise"], self.val_desc(st, other) if other else "unk")
             outs = []
             seen_vals = []
             dlo, dhi = (-INF, INF)
@@ -1307,6 +1384,10 @@ class FnRun(FnAnalysis):
             return [(t["t"], st)]
         if k == "Call":
             self.call(st, t, bi)
+            if self.collect and t.get("dest") is not None and t["dest"]["l"] == 0:
+                nm = norm(t.get("resolved") or t.get("callee")) or ""
+                if not nm.endswith("::from_residual"):
+                    self.ens_unknown = True
             return [(t["t"], st)] if t.get("t") is not None else []
         return []
 
@@ -1400,13 +1481,34 @@ class FnRun(FnAnalysis):
             elif c in INT_BOUNDS and c != "bool":
                 a = "m_%d" % i
                 lo, hi = INT_BOUNDS[c]
+                pr = self.prog.param_ranges.get(self.name, {}).get(i)
+                if pr and not os.environ.get("C06_NO_PARAMRANGE"):
+                    lo, hi = max(lo, pr[0]), min(hi, pr[1])
+                    if lo > hi:
+                        lo, hi = INT_BOUNDS[c]
                 self.atom_meta[a] = {"lo": lo, "hi": hi, "taint": True, "desc": "param%d" % i}
                 st.val["_%d" % i] = self.int_of_atom(a)
+        if not os.environ.get("C06_NO_PARAMRANGE"):
+            for f in sorted(self.prog.param_rel.get(self.name, ())):
+                vi = st.val.get("_%d" % f[2])
+                if not (vi and vi[0] == "int"):
+                    continue
+                if f[0] == "le":
+                    vj = st.val.get("_%d" % f[1])
+                    if vj and vj[0] == "int":
+                        self.le(st, vj, vi, 0)
+                elif f[0] == "len_ge":
+                    pv = st.val.get("_%d" % f[1])
+                    sid = self.slice_arg(st, pv) if pv else (self.slice_sid_of_loc(st, "_%d" % f[1], self.lclass(f[1])) if is_u8_seq(self.lclass(f[1])) else None)
+                    if sid:
+                        self.le(st, vi, self.len_val(st, sid), 0)
         return st
 
     def run(self):
         self.sid_origin = {}
         self.range_loops = {}
+        self.len_locals = set()
+        self.len_loops = {}
         self._dom = None
         n = len(self.blocks)
         init = self.initial_state()
@@ -1455,6 +1557,18 @@ class FnRun(FnAnalysis):
         self.sites = {}
         self.int_casts = {}
         self.ret_range = None
+        self.ok_points = []
+        self.ens_unknown = False
+        # parameters that are never written in the body keep the meaning of their entry atom
+        written = set()
+        for b_ in self.blocks:
+            for s_ in b_["stmts"]:
+                if s_.get("k") == "Assign" and not s_["place"].get("p"):
+                    written.add(s_["place"]["l"])
+            t_ = b_.get("term") or {}
+            if t_.get("k") == "Call" and t_.get("dest") is not None and not t_["dest"].get("p"):
+                written.add(t_["dest"]["l"])
+        self.ens_params = [i for i in range(1, self.nargs + 1) if i not in written]
         for bi in sorted(entry):
             st = entry[bi].copy()
             try:
@@ -1464,6 +1578,81 @@ class FnRun(FnAnalysis):
         self.collect = False
         self.amp_sites()
         return self.sites
+
+    # ---------------------------------------------------------------- guard helpers
+    def note_return_value(self, st, rv, partial):
+        """`_0 = Ok(..)` in a function returning Result: record what the state guarantees about the parameters at that
+        point.  The meet over all such points is the function's *ensures* summary (`check_len(found, expected)?`,
+        `need(buf, 6)?`): a caller may assume it on the Ok / Continue edge of the result.  Any other way of producing
+        the return value (a moved local, another call) makes the summary empty."""
+        if partial or rv.get("k") != "Aggregate" or rv.get("variant") not in ("Ok", "Err"):
+            self.ens_unknown = True
+            return
+        if rv.get("variant") == "Err":
+            return
+        rel, cst = set(), {}
+        ints = [i for i in self.ens_params if self.lclass(i) in INT_BOUNDS and self.lclass(i) != "bool"]
+        vals = {}
+        for i in ints:
+            a = "m_%d" % i
+            if a in self.atom_meta:
+                vals[i] = self.refresh(st, self.int_of_atom(a))
+        for i, vi in vals.items():
+            lo, hi = INT_BOUNDS[self.lclass(i)]
+            if vi[2] > lo:
+                cst[("ge_const", i)] = vi[2]
+            if vi[3] < hi:
+                cst[("le_const", i)] = vi[3]
+            for j, vj in vals.items():
+                if i != j and self.prove_le(st, vi, vj):
+                    rel.add(("le", i, j))
+        for i in self.ens_params:
+            sid = "P%d" % i
+            if sid not in st.sl:
+                continue
+            if st.sl[sid][0] > 0:
+                cst[("len_ge_const", i)] = st.sl[sid][0]
+            ln = self.len_val(st, sid)
+            for j, vj in vals.items():
+                if self.prove_le(st, vj, ln):
+                    rel.add(("len_ge", i, j))
+        self.ok_points.append((rel, cst))
+
+    def ensures_summary(self):
+        if getattr(self, "ens_unknown", True) or not getattr(self, "ok_points", None):
+            return None
+        if not (self.locals[0].get("ty") or "").startswith("core::result::Result<"):
+            return None
+        rel = set.intersection(*[p[0] for p in self.ok_points])
+        cst = {}
+        for k in set.intersection(*[set(p[1]) for p in self.ok_points]):
+            vs = [p[1][k] for p in self.ok_points]
+            cst[k] = max(vs) if k[0] == "le_const" else min(vs)
+        out = sorted(rel) + sorted((k[0], k[1], v) for k, v in cst.items())
+        return tuple(out) or None
+
+    def guard_value(self, st, ens, args):
+        cmps = []
+        for f in ens:
+            def iv(i):
+                return args[i - 1] if i - 1 < len(args) and args[i - 1] and args[i - 1][0] == "int" else None
+
+            def lv(i):
+                if i - 1 >= len(args) or not args[i - 1]:
+                    return None
+                sid = self.slice_arg(st, args[i - 1])
+                return self.len_val(st, sid) if sid else None
+            if f[0] == "le" and iv(f[1]) and iv(f[2]):
+                cmps.append(("Le", iv(f[1]), iv(f[2])))
+            elif f[0] == "ge_const" and iv(f[1]):
+                cmps.append(("Ge", iv(f[1]), V_const(f[2])))
+            elif f[0] == "le_const" and iv(f[1]):
+                cmps.append(("Le", iv(f[1]), V_const(f[2])))
+            elif f[0] == "len_ge_const" and lv(f[1]):
+                cmps.append(("Ge", lv(f[1]), V_const(f[2])))
+            elif f[0] == "len_ge" and lv(f[1]) and iv(f[2]):
+                cmps.append(("Ge", lv(f[1]), iv(f[2])))
+        return ("opt", "guard", tuple(cmps)) if cmps else None
 
     # ---------------------------------------------------------------- R-AMP
     def succs(self, bi):
@@ -1511,17 +1700,17 @@ class FnRun(FnAnalysis):
         return dom
 
     def amp_sites(self):
-        if not self.range_loops:
+        if not self.range_loops and not self.len_loops:
             return
         n = len(self.blocks)
         preds = defaultdict(list)
         for b in range(n):
             for s_ in self.succs(b):
                 preds[s_].append(b)
-        for h, (end, span, desc) in sorted(self.range_loops.items()):
-            # natural loop of header h: back edges u -> h with h dominating u; body = nodes reaching a latch
-            # backwards without passing through h
-            dom = self.dominators()
+        dom = self.dominators()
+
+        def natural_loop(h):
+            # back edges u -> h with h dominating u; body = nodes reaching a latch backwards without passing through h
             latches = [u for u in preds[h] if h in dom.get(u, ())]
             loop = {h}
             st_ = list(latches)
@@ -1533,6 +1722,32 @@ class FnRun(FnAnalysis):
                 for y in preds[x]:
                     if y not in loop:
                         st_.append(y)
+            return loop, bool(latches)
+        work = [(h, end, span, desc, "for-range", None) for h, (end, span, desc) in sorted(self.range_loops.items())]
+        # `while v.len() < n { v.push(..) }`: the loop runs while a container is shorter than another value
+        for bi, (op, other, span, zero_tgt, other_tgt, odesc) in sorted(self.len_loops.items()):
+            best = None
+            for h in range(n):
+                loop, has = natural_loop(h) if any(h in dom.get(u, ()) for u in preds[h]) else (None, False)
+                if not has or bi not in loop:
+                    continue
+                if best is None or len(loop) < len(best[1]):
+                    best = (h, loop)
+            if best is None:
+                continue
+            loop = best[1]
+            cont_true = other_tgt in loop and (zero_tgt is None or zero_tgt not in loop)
+            cont_false = zero_tgt is not None and zero_tgt in loop and other_tgt not in loop
+            if not (cont_true or cont_false):
+                continue
+            if cont_false:
+                op = {"Lt": "Ge", "Le": "Gt", "Gt": "Le", "Ge": "Lt"}[op]
+            if op not in ("Lt", "Le"):
+                continue        # the container length is the bound, not the thing that grows towards one
+            work.append((bi, other, span, odesc, "while-len", loop))
+        for h, end, span, desc, form, loop in work:
+            if loop is None:
+                loop, _ = natural_loop(h)
             grow, consume = [], []
             for b in loop:
                 t = self.blocks[b]["term"]
@@ -1548,7 +1763,7 @@ class FnRun(FnAnalysis):
             ok = (not tainted) or small or not grow or bool(consume)
             why = "trip count %s in [%s, %s]; loop body grows memory through %s; input-consuming calls in the body: %s" % (
                 desc, end[2] if end else "?", end[3] if end else "?", sorted(set(x.rsplit("::", 1)[-1] for x in grow)) or "nothing", sorted(set(x.rsplit("::", 1)[-1] for x in consume)) or "none")
-            self.sites[(h, "AMP")] = Site(self.name, "R-AMP", "for-range", span, ok, why, "for-range %s grows %s" % (desc, ",".join(sorted(set(x.rsplit("::", 1)[-1] for x in grow)))), tainted)
+            self.sites[(h, "AMP")] = Site(self.name, "R-AMP", form, span, ok, why, "%s %s grows %s" % (form, desc, ",".join(sorted(set(x.rsplit("::", 1)[-1] for x in grow)))), tainted)
 
     def widen(self, old, new):
         s = new
@@ -1586,11 +1801,49 @@ class Program:
         self.runs = {}
         self.requires = {}
         self.ret_ranges = {}
+        self.ensures = {}
+        self.param_ranges = {}     # private fn -> {param index: (lo, hi)} joined over all its call sites
+        self.arg_obs = {}
+        self.arg_rel_obs = {}
+        self.param_rel = {}        # private fn -> relations between its parameters that hold at every call site
+        self.eligible = self._private_fns(facts)
         for name, ms in facts.mir.items():
             for m in ms:
                 if "::tests::" in name or name.startswith("tests::") or "::test::" in name:
                     continue
                 self.runs[name] = FnRun(self, name, m)
+
+    @staticmethod
+    def _private_fns(facts):
+        """functions whose every call site is a direct call inside their own module: private (module-restricted)
+        free functions / inherent methods that are never used as a value.  Only for those is the join of the argument
+        intervals over the analysed call sites a sound bound for the parameter."""
+        out = set()
+        hir = [f.raw for f in getattr(facts, "fns", [])]
+        for h in hir:
+            vis = h.get("vis") or ""
+            if h.get("dk") in ("Fn", "AssocFn") and vis.startswith("Restricted(") and "DefId(0:0 " not in vis:
+                out.add(norm(h["def"]))
+        taken = set()
+
+        def ops_of(x):
+            if isinstance(x, dict):
+                c = x.get("const")
+                if isinstance(c, dict) and c.get("fn"):
+                    taken.add(norm(c["fn"]))
+                for v in x.values():
+                    ops_of(v)
+            elif isinstance(x, list):
+                for v in x:
+                    ops_of(v)
+        for name, ms in facts.mir.items():
+            for m in ms:
+                for b in m["blocks"]:
+                    for st_ in b["stmts"]:
+                        ops_of(st_)
+                    t = b.get("term") or {}
+                    ops_of(t.get("args"))
+        return out - taken
 
     def analyse(self, files=None, rounds=3):
         names = [n for n, r in self.runs.items() if files is None or r.body["span"]["f"] in files]
